@@ -237,6 +237,57 @@ func (t *tracer) origins(v ssa.Value) []ssa.Value {
 		}
 	}
 	var walk func(v ssa.Value, depth int)
+	// walkFieldOf: the values field #idx of the struct value sv can hold, when sv was received from a channel or
+	// loaded from a local composite literal. Reports whether anything was found.
+	var walkFieldOf func(sv ssa.Value, idx int, depth int) bool
+	walkFieldOf = func(sv ssa.Value, idx int, depth int) bool {
+		if depth > t.maxDepth {
+			return false
+		}
+		n := 0
+		fromAlloc := func(al *ssa.Alloc) {
+			for _, r := range referrers(al) {
+				switch y := r.(type) {
+				case *ssa.FieldAddr:
+					if y.Field != idx {
+						continue
+					}
+					for _, r2 := range referrers(y) {
+						if st, ok := r2.(*ssa.Store); ok && st.Addr == ssa.Value(y) {
+							walk(st.Val, depth+1)
+							n++
+						}
+					}
+				case *ssa.Store:
+					if y.Addr == ssa.Value(al) {
+						if walkFieldOf(y.Val, idx, depth+1) {
+							n++
+						}
+					}
+				}
+			}
+		}
+		if ld, ok := sv.(*ssa.UnOp); ok && ld.Op == token.MUL {
+			if al, ok := ld.X.(*ssa.Alloc); ok {
+				fromAlloc(al)
+				return n > 0
+			}
+		}
+		if !t.throughChans {
+			return false
+		}
+		var structs []ssa.Value
+		collect := func(x ssa.Value, d int) { structs = append(structs, x) }
+		if ch, ok := chanOfRecv(sv); ok {
+			t.walkChan(ch, depth, collect, func(ssa.Value) {}, sv)
+		}
+		for _, x := range structs {
+			if walkFieldOf(x, idx, depth+1) {
+				n++
+			}
+		}
+		return n > 0
+	}
 	walk = func(v ssa.Value, depth int) {
 		if v == nil || seen[v] {
 			return
@@ -319,6 +370,13 @@ func (t *tracer) origins(v ssa.Value) []ssa.Value {
 						walk(sv, depth)
 					}
 				case *ssa.FieldAddr:
+					if al, ok := a.X.(*ssa.Alloc); ok && !al.Heap || ok && t.throughChans {
+						// field of a local struct variable
+						ld := &ssa.UnOp{Op: token.MUL, X: al}
+						if walkFieldOf(ld, a.Field, depth) {
+							return
+						}
+					}
 					if !t.throughFields {
 						addRoot(v)
 						return
@@ -394,6 +452,10 @@ func (t *tracer) origins(v ssa.Value) []ssa.Value {
 				if idx < len(args) {
 					walk(args[idx], depth+1)
 				}
+			}
+		case *ssa.Field:
+			if !walkFieldOf(x.X, x.Field, depth) {
+				addRoot(v)
 			}
 		case *ssa.FreeVar:
 			bs := bindingOf(x)
